@@ -9,7 +9,7 @@ def run(ctx):
         ctx.run_shards(b, "TestVerifC02", 1, 600, "c02")
     else:
         quick = ctx.tier == "quick"
-        ctx.run_shards(b, "TestVerifC02", 13 if quick else 16, 900 if quick else 3400, "c02")
+        ctx.run_shards(b, "TestVerifC02", 17 if quick else 20, 900 if quick else 3400, "c02")
         # the same workload with 2 OS threads and under the race detector (schedule perturbation; reports are diagnostics)
         ctx.run_shards(b, "TestVerifC02", 9 if quick else 16, 900 if quick else 3400, "c02p2", extra_env={"GOMAXPROCS": "2", "VERIF_TIER": "quick", "VERIF_C02_NOQUIET": "1"})
         br = ctx.build(pkg, race=True)
@@ -21,5 +21,6 @@ def run(ctx):
         "target still open, closed by the target, busy echoing} for as long as needed and issues an operation {open+echo, 64 KiB echo, 600 KB transfer, close by "
         "application, close by target} on another connection, which must complete under the stall rule. Free-running stress: k in {2,4,8,16} goroutines open "
         "tagged connections concurrently and run random write/read/pause/close scripts, every stream keyed by its connection so a foreign byte is attributed. "
+        "Further scripted operations: a connection for a channel the server refuses, and for a channel whose target is down, between uses of the held connections. A peer that drives the multiplexer by hand opens a logical connection and stays silent on it: another connection opened meanwhile, another one after a silent connection was closed unused, and the silent one when it finally names its channel must all be served. Connections that stay quiet for 35/65 s. "
         "Repeated with GOMAXPROCS=2 and under -race, with random delays at the server.stream.accepted hook. Distinct = case descriptor; non-trivial = the operation ran to a verdict.",
         ["both ends of every logical connection are held by the harness", "unread data of stalled connections stays under the shared 4 MiB receive buffer, as the property requires"])
